@@ -211,11 +211,16 @@ def capture():
                 names[(v.pattern, int(v.flags) & ~re.UNICODE)] = short + "_" + attr.strip("_")
     out = []
     seen = {}
+    stable = stable_names()
     for site, pat, flags in captured:
         key = (pat, flags)
         if key in seen:
             continue
-        name = names.get((pat, flags & ~re.UNICODE)) or names.get((pat, re.compile(pat, flags).flags & ~re.UNICODE))
+        # a pattern whose text and flags are unchanged keeps the name its theorems use, wherever the library now compiles it
+        # (a helper renamed, a pattern hoisted to a module constant); a changed or new pattern gets a name derived from where it is compiled
+        name = stable.get((repr(pat), int(flags)))
+        if name is None:
+            name = names.get((pat, flags & ~re.UNICODE)) or names.get((pat, re.compile(pat, flags).flags & ~re.UNICODE))
         if name is None:
             name = site
         base = name
@@ -228,8 +233,22 @@ def capture():
     return out
 
 
+NAMES_FILE = os.path.join(os.path.dirname(os.path.abspath(__file__)), "regex_names.json")
+
+
+def stable_names():
+    """{(repr(pattern), flags): name} for the patterns that have theorems (harness/regex_names.json, committed)"""
+    import json
+
+    try:
+        with open(NAMES_FILE) as fh:
+            return {(e["pattern"], int(e["flags"])): e["name"] for e in json.load(fh)}
+    except FileNotFoundError:
+        return {}
+
+
 def gen_regexes() -> str:
-    pats = capture()
+    pats = sorted(capture(), key=lambda t: t[0])
     w = []
     w.append("/- GENERATED by harness/translate_re.py from /repo's working tree. Do not edit.")
     w.append("   One definition per regular expression the library compiles, named after the module attribute or the")
